@@ -3,6 +3,7 @@
 package main
 
 import (
+	"reflect"
 	"strings"
 
 	"github.com/hashicorp/consul/agent/consul/state"
@@ -224,9 +225,59 @@ func gatewayLinkRemoved(q *query, gb, ga []string) bool {
 	return false
 }
 
+// nodeMetaChanged: some node row exists before and after with different meta
+func nodeMetaChanged(b, a *state.VerifStoreTables) bool {
+	for _, n := range b.Nodes {
+		for _, m := range a.Nodes {
+			if lower(m.Node) == lower(n.Node) && m.PeerName == n.PeerName && !reflect.DeepEqual(normMeta(n.Meta), normMeta(m.Meta)) {
+				return true
+			}
+		}
+	}
+	return false
+}
+
+func normMeta(m map[string]string) map[string]string {
+	if len(m) == 0 {
+		return nil
+	}
+	return m
+}
+
+// sameChecks: the checks table holds the same rows (by key and modify index) before and after
+func sameChecks(b, a *state.VerifStoreTables) bool {
+	if len(b.Checks) != len(a.Checks) {
+		return false
+	}
+	for i := range b.Checks {
+		x, y := b.Checks[i], a.Checks[i]
+		if x.Node != y.Node || x.CheckID != y.CheckID || x.PeerName != y.PeerName || x.ModifyIndex != y.ModifyIndex || x.Status != y.Status {
+			return false
+		}
+	}
+	return true
+}
+
 // shapeOfWide: Part B mechanisms first, then the shared ones.
 func shapeOfWide(q *query, trees []string, b, a *state.VerifStoreTables, gb, ga []string, ob, oa obs) string {
 	switch q.Kind {
+	case "ChecksInStateByNodeMeta":
+		// the listing is filtered by the meta of the checks' nodes but reports the checks table index: a node whose
+		// meta changes moves checks in or out of the result without touching any check row
+		if nodeMetaChanged(b, a) && sameChecks(b, a) {
+			return "health:checks-in-state-by-node-meta:node-meta-change-outside-checks-index"
+		}
+	case "ServiceUsage":
+		// Operator.Usage counts nodes too, but reports the index of the service-instances usage row: a write that
+		// changes the node count without touching a service instance leaves the index where it was
+		if sameServices(b, a) && len(b.Nodes) != len(a.Nodes) {
+			return "usage:service-usage:node-count-change-outside-service-instances-index"
+		}
+	case "ServiceAddressNodes":
+		// the function returns the constant index 0 (reported as 1), whatever happens to its result
+		if oa.idx == 0 && ob.idx <= 1 {
+			return "catalog:service-address-nodes:index-always-0"
+		}
 	case "NodeServicesByID":
 		// lookup by node ID: the node kept its name but was given another ID (no node was deleted, so the
 		// extinction index the code falls back to did not move)
